@@ -18,6 +18,12 @@ def streams(tier, seed):
     rng = lib.Rng(f"C04-{seed}")
     n = 160 if tier == "quick" else 3000
     cases = lib.load_corpus(PROP, "hier-compile") + c01.gen_cases(rng, n, 3 if tier == "quick" else 4)
+    import hier as H
+    for c in cases:
+        if "derived_leaf" not in c and rng.random() < 0.15 and any(nd.get("repetition") for nd, _ in H._nodes(c["routine"])):
+            # compiled with an additive resource DERIVED on the leaves (compile_routine(..., derived_resources=...)): it enters
+            # every repetition above a leaf; the compiled hierarchy must still be closed over the inputs
+            c["derived_leaf"] = {"name": "dgates", "type": "additive", "of": rng.choice(["T", "G", "Q"]), "a": rng.randint(2, 3), "b": rng.randint(0, 5)}
     return [c01.mk_stream(cases, "check_closed")]
 
 
